@@ -82,6 +82,49 @@ def erased(cmds, outcomes):
     return srcs
 
 
+def _history_worker(hs):
+    """run each history on a fresh interpreter and apply the history oracles; returns [(outcomes, [violation text])]"""
+    core.use_repo()
+    out = []
+    for h in hs:
+        outs = run_history(h)
+        cmds = [COMMANDS[c][0] for c in h]
+        viols = []
+        # (0) nothing but values, runtime errors and syntax errors
+        for c, o in zip(h, outs):
+            if o[0][0] not in ('val', 'rt', 'syn'):
+                viols.append(f"`{COMMANDS[c][0]}` ends with {o[0]} in the history {cmds}")
+        # (1) a failing call repeated immediately gives the same outcome
+        for k in range(len(h) - 1):
+            if h[k] == h[k + 1] and outs[k][0][0] in ('rt', 'syn') and outs[k] != outs[k + 1]:
+                viols.append(f"repeating the failed call `{COMMANDS[h[k]][0]}` gives {outs[k + 1]} instead of {outs[k]} again (history {cmds[:k + 2]})")
+        # (2) erasure: the surviving calls behave as if the failed remainders had never run
+        if any(o[0][0] in ('rt', 'syn') for o in outs):
+            srcs, expect = [], []
+            for c, o in zip(h, outs):
+                if o[0][0] in ('rt', 'syn'):
+                    eff = COMMANDS[c][1]
+                    if eff:
+                        srcs.append(eff)
+                        expect.append(None)
+                else:
+                    srcs.append(COMMANDS[c][0])
+                    expect.append(o)
+            s2 = session.ImplSession(MODS)
+            try:
+                for src, exp in zip(srcs, expect):
+                    o2, printed, _ = s2.run(src)
+                    if exp is not None:
+                        # module load messages may move to a later call when an earlier failed call had half-loaded a module chain: compare values
+                        if o2[:2] != exp[0]:
+                            viols.append(f"after failed calls `{src}` gives {exp[0]}, without them {o2[:2]} (history {cmds})")
+                            break
+            finally:
+                s2.close()
+        out.append((outs, viols))
+    return out
+
+
 def run(ctx):
     rng = ctx.rng
     names = list(COMMANDS)
@@ -106,43 +149,17 @@ def run(ctx):
     ctx.exhaustive = False
     reqs = []
     results = []
-    for h in histories:
-        outs = run_history(h)
+    import multiprocessing as mp
+    chunks = [histories[i:i + 40] for i in range(0, len(histories), 40)]
+    with mp.Pool(16) as pool:
+        done = [x for res in pool.map(_history_worker, chunks) for x in res]
+    for h, (outs, viols) in zip(histories, done):
         results.append(outs)
         failing_then_more = any(o[0][0] in ('rt', 'syn') for o in outs[:-1])
         ctx.seen(tuple(h), nontrivial=failing_then_more)
         rp = {"op": "history", "commands": [COMMANDS[c][0] for c in h]}
-        # (0) nothing but values, runtime errors and syntax errors
-        for c, o in zip(h, outs):
-            if o[0][0] not in ('val', 'rt', 'syn'):
-                ctx.violation("oracle", f"`{COMMANDS[c][0]}` ends with {o[0]} in the history {rp['commands']}", rp)
-        # (1) a failing call repeated immediately gives the same outcome
-        for k in range(len(h) - 1):
-            if h[k] == h[k + 1] and outs[k][0][0] in ('rt', 'syn') and outs[k] != outs[k + 1]:
-                ctx.violation("oracle", f"repeating the failed call `{COMMANDS[h[k]][0]}` gives {outs[k + 1][0]} instead of {outs[k][0]} again (history {rp['commands'][:k + 2]})", rp)
-        # (2) erasure: the surviving calls behave as if the failed remainders had never run
-        if any(o[0][0] in ('rt', 'syn') for o in outs):
-            srcs, expect = [], []
-            for c, o in zip(h, outs):
-                if o[0][0] in ('rt', 'syn'):
-                    eff = COMMANDS[c][1]
-                    if eff:
-                        srcs.append(eff)
-                        expect.append(None)
-                else:
-                    srcs.append(COMMANDS[c][0])
-                    expect.append(o)
-            s2 = session.ImplSession(MODS)
-            try:
-                for src, exp in zip(srcs, expect):
-                    out, printed, _ = s2.run(src)
-                    if exp is not None:
-                        # module load messages may move to a later call when an earlier failed call had half-loaded a module chain: compare values
-                        if out[:2] != exp[0]:
-                            ctx.violation("oracle", f"after failed calls `{src}` gives {exp[0]}, without them {out[:2]} (history {rp['commands']})", rp)
-                            break
-            finally:
-                s2.close()
+        for text in viols:
+            ctx.violation("oracle", text, rp)
         reqs.append(session.model_request([COMMANDS[c][0] for c in h], MODS))
     # (3) two interleaved interpreters behave as each alone
     for _ in range(300 if ctx.thorough else 60):
